@@ -126,7 +126,7 @@ func sameStrings(a, b []string) bool {
 
 // genProgram draws the i-th program of a stream.
 func genProgram(r *rand.Rand, i int) *gen.Program {
-	o := gen.Options{Budget: 4 + r.IntN(14), Heredocs: i%3 == 0, Flat: i%5 == 1}
+	o := gen.Options{Budget: 4 + r.IntN(14), Heredocs: i%3 == 0, Flat: i%5 == 1, LeadHD: i%7 == 3}
 	if i%40 == 7 {
 		o.Budget = 60 + r.IntN(200)
 	}
